@@ -250,10 +250,11 @@ def _install_observers(vp):
 
     orig_deser = Cluster.deserialize.__func__
 
-    def deserialize(cls, path, try_promote_to_submitter=False, deserialize_jobs=False):
+    def deserialize(cls, path, *a, **kw):
+        # (signature-agnostic: the observer must not constrain how the code under test calls its own function)
+        try_promote_to_submitter = bool(kw.get("try_promote_to_submitter", a[0] if a else False))
         try:
-            res = orig_deser(cls, path, try_promote_to_submitter=try_promote_to_submitter,
-                             deserialize_jobs=deserialize_jobs)
+            res = orig_deser(cls, path, *a, **kw)
         except BaseException as exc:
             if try_promote_to_submitter:
                 CH.call(op="api", name="promote", ok=False, exc=type(exc).__name__, path=str(path))
